@@ -106,17 +106,6 @@ private:
     {
         auto& context = ctx_manager->get(f);
 
-        if(f.value_ref)
-        {
-            // accessor refers to the enum from `valueRef`, its header is
-            // required even when field's type is a primitive one
-            const auto parsed = utils::parse_value_ref(*f.value_ref);
-            dependencies.emplace(
-                utils::get_schema_encoding_as<sbe::enumeration>(
-                    *schema, parsed.enum_name)
-                    .name);
-        }
-
         if(!utils::is_primitive_type(f.type))
         {
             const auto& enc = utils::get_schema_encoding(*schema, f.type);
@@ -137,6 +126,14 @@ private:
             }
         }
 
+        // accessor refers to the enum from `valueRef`, its header is required.
+        // For non-primitive types `valueRef` is either not used at all
+        // (constant type) or refers to field's own type (enum)
+        const auto parsed = utils::parse_value_ref(*f.value_ref);
+        dependencies.emplace(
+            utils::get_schema_encoding_as<sbe::enumeration>(
+                *schema, parsed.enum_name)
+                .name);
         context.value_type = utils::primitive_type_to_cpp_type(f.type);
 
         return normal_accessors::make_constant_accessor(
